@@ -366,7 +366,22 @@ pub fn fork_run(f: impl FnOnce() -> Vec<u8>) -> Result<Vec<u8>, String> {
         libc::close(fds[1]);
         let mut out = Vec::new();
         let mut buf = [0u8; 65536];
+        let started = Instant::now();
         loop {
+            // a child that never finishes (e.g. blocked on a lock whose owner did not survive the
+            // fork) is killed after two minutes: reported as an error of the run, not as a verdict
+            let mut pfd = libc::pollfd { fd: fds[0], events: libc::POLLIN, revents: 0 };
+            let pr = libc::poll(&mut pfd, 1, 1000);
+            if pr == 0 {
+                if started.elapsed().as_secs() > 120 {
+                    libc::kill(pid, libc::SIGKILL);
+                    let mut st = 0i32;
+                    libc::waitpid(pid, &mut st, 0);
+                    libc::close(fds[0]);
+                    return Err("child did not finish within 120 s (killed)".into());
+                }
+                continue;
+            }
             let n = libc::read(fds[0], buf.as_mut_ptr() as *mut libc::c_void, buf.len());
             if n > 0 {
                 out.extend_from_slice(&buf[..n as usize]);
